@@ -6,7 +6,10 @@ proof:          lean/OdfModel/Props/C08.lean about the model lean/OdfModel/Dom.l
 correspondence: the same op sequence on real odf nodes and on the driver drv_dom; the answer (ok / err <class>)
                 and the full pointer snapshot (parent, previous, next, child list of every node) are compared
                 after EVERY step
-oracle:         (a) a consistency checker over the real objects written from the property text, using only
+oracle:         (also: histories on a real document - edits in office:text and office:meta, clear_caches / rebuild_caches /
+                build_caches / remove_from_caches, xml / metaxml / save / write / contentxml ... - with the same checker
+                after every call whatever it raised)
+                (a) a consistency checker over the real objects written from the property text, using only
                 identity comparisons and Python lists; (b) a children-lists-only reference (dict id -> list)
                 run in lock-step: expected child order after every step, expected NotFoundErr
 """
@@ -418,12 +421,209 @@ def exhaustive(chk, drv, attached, n_elem, n_text, max_depth, max_states, same_t
     return len(seen), napplied, closed
 
 
+# ---------------------------------------------------------------------------------------------
+# histories on a real DOCUMENT: tree edits in its sections (office:text, office:meta with several children and
+# generators in every position), the document's public cache methods, and the rendering calls (oracle only)
+class DocUniverse(object):
+    attached = False
+    def __init__(self):
+        from odf.opendocument import OpenDocumentText
+        self.doc = OpenDocumentText()
+        self.nodes = {}; self.idof = {}; self.roots = {}
+        self.sweep()
+        self.skel = set(self.nodes)
+        self.skel.discard(self.nid(self.doc.meta.childNodes[0]))       # the generator may be moved like any node
+
+    def nid(self, n):
+        if n is None: return None
+        return self.idof.get(id(n), 'X')
+
+    def reg(self, n):
+        if id(n) not in self.idof:
+            i = len(self.nodes); self.nodes[i] = n; self.idof[id(n)] = i
+
+    def sweep(self):
+        """every node reachable from the top node gets an id (new generators appear after a rendering call)"""
+        def walk(n, d):
+            self.reg(n)
+            if d < 60:
+                for c in n.childNodes: walk(c, d + 1)
+        walk(self.doc.topnode, 0)
+
+    def make(self, spec):
+        from odf.element import Text, CDATASection
+        from odf import dc, meta
+        k = spec[0]
+        if k == 't': n = Text(spec[1])
+        elif k == 'c': n = CDATASection(spec[1])
+        elif k == 'Title': n = dc.Title(text=u'a title')
+        elif k == 'Generator': n = meta.Generator(text=u'someone else')
+        elif k == 'Creator': n = meta.InitialCreator(text=u'me')
+        else: n = D.factory(k)(check_grammar=False)
+        self.reg(n)
+        if n.nodeType == 1:
+            for c in n.childNodes: self.reg(c)
+        return self.nid(n)
+
+    def anc_or_self(self, a, x):
+        n = self.nodes[x]; k = 0
+        while n is not None and k < 1000:
+            if n is self.nodes[a]: return True
+            n = n.parentNode; k += 1
+        return False
+
+    def apply(self, op):
+        import io
+        N = self.nodes; d = self.doc
+        try:
+            k = op[0]
+            if k == 'make': self.make(op[1])
+            elif k == 'append': N[op[1]].appendChild(N[op[2]])
+            elif k == 'insb': N[op[1]].insertBefore(N[op[2]], None if op[3] is None else N[op[3]])
+            elif k == 'rm': N[op[1]].removeChild(N[op[2]])
+            elif k == 'clear': d.clear_caches()
+            elif k == 'rebuild': d.rebuild_caches() if op[1] is None else d.rebuild_caches(N[op[1]])
+            elif k == 'build': d.build_caches(N[op[1]])
+            elif k == 'rmcache': d.remove_from_caches(N[op[1]])
+            elif k == 'render':
+                {'xml': d.xml, 'metaxml': d.metaxml, 'contentxml': d.contentxml, 'stylesxml': d.stylesxml,
+                 'settingsxml': d.settingsxml, 'save': lambda: d.save(io.BytesIO()), 'write': lambda: d.write(io.BytesIO())}[op[1]]()
+            ans = 'ok'
+        except RecursionError:
+            raise
+        except Exception as e:
+            ans = 'err %s: %s' % (type(e).__name__, e)
+        self.sweep()
+        return ans
+
+    def body(self):
+        return self.doc.body
+
+
+def doc_fixed_histories():
+    # ids after the skeleton (0..11; 1 = office:meta, 2 = its generator, 11 = office:text): 'make' ops number upwards from 12
+    T = ['make', ['Title']]; G = ['make', ['Generator']]; C = ['make', ['Creator']]
+    out = []
+    for order in ([T, C], [G, T], [T, G, C], [T, C, G]):
+        h = list(order)
+        ids = list(range(12, 12 + len(order)))
+        # arrange: new children first / around the existing generator (id 2)
+        h.append(['insb', 1, ids[0], 2])
+        for i in ids[1:]:
+            h.append(['append', 1, i])
+        for r in ('xml', 'metaxml', 'save'):
+            out.append(h + [['render', r]])
+        out.append(h + [['append', 1, 2], ['render', 'xml'], ['render', 'save']])
+    P = ['make', ['P']]; S = ['make', ['Span']]
+    base = [P, S, ['append', 11, 12], ['append', 12, 13]]
+    out += [base + [['clear'], ['rm', 12, 13]], base + [['clear'], ['append', 11, 13]], base + [['clear'], ['insb', 11, 13, 12]],
+            base + [['clear'], ['rm', 11, 12]], base + [['clear'], ['rebuild', None], ['rm', 11, 12]],
+            base + [['rmcache', 12], ['rm', 11, 12]], base + [['build', 12], ['rm', 11, 12]],
+            base + [['rebuild', 12], ['rm', 12, 13]], base + [['clear'], ['render', 'xml'], ['render', 'save']]]
+    return out
+
+
+def doc_random_history(rng):
+    u = DocUniverse()
+    ops = []
+    def do(op):
+        ops.append(op); return u.apply(op)
+    for spec in (['P'], ['Span'], ['Section'], ['Title'], ['Generator'], ['Creator'], ['t', u'txt'], ['t', u'txt'], ['t', u'']):
+        do(['make', spec])
+    yield u, ops, None, 'ok'
+    text = u.nid(u.doc.text); mt = u.nid(u.doc.meta)
+    for _ in range(rng.randint(4, 25)):
+        mov = [i for i in sorted(u.nodes) if i not in u.skel]
+        par = [text, mt, text, mt] + [i for i in mov if u.nodes[i].nodeType == 1]
+        k = rng.choice(['append'] * 4 + ['insb'] * 4 + ['rm'] * 3 + ['cache'] * 3 + ['render'] * 3)
+        if k in ('append', 'insb'):
+            p = rng.choice(par); c = rng.choice(mov)
+            if u.anc_or_self(c, p): continue
+            if k == 'append': op = ['append', p, c]
+            else:
+                ks = [u.nid(x) for x in u.nodes[p].childNodes]
+                op = ['insb', p, c, rng.choice(ks) if ks and rng.random() < 0.8 else None]
+        elif k == 'rm':
+            cand = [(p, u.nid(x)) for p in set(par) for x in u.nodes[p].childNodes if u.nid(x) in mov]
+            if not cand: continue
+            p, c = rng.choice(sorted(cand)); op = ['rm', p, c]
+        elif k == 'cache':
+            els = [i for i in sorted(u.nodes) if u.nodes[i].nodeType == 1]
+            op = rng.choice([['clear'], ['clear'], ['rebuild', None], ['rebuild', rng.choice(els)], ['build', rng.choice(els)],
+                             ['rmcache', rng.choice(els)]])
+        else:
+            op = ['render', rng.choice(['xml', 'metaxml', 'save', 'contentxml', 'stylesxml', 'settingsxml', 'write'])]
+        ans = do(op)
+        yield u, ops, op, ans
+
+
+def doc_check(u, op, ans):
+    """the C08 invariant on every node ever seen, after any call, whatever it raised; tree edits and rendering calls
+    that are legal must not raise"""
+    if op is not None and ans != 'ok' and op[0] in ('append', 'insb', 'rm', 'render', 'clear', 'rebuild', 'make'):
+        sig = 'legal-edit-refused' if op[0] in ('append', 'insb', 'rm') else 'document-call-raises'
+        probs = consistency_problems(u)
+        return (sig, '%s answered %s%s' % (op, ans, ('; afterwards: ' + '; '.join(probs[:3])) if probs else ''))
+    probs = consistency_problems(u)
+    if probs:
+        return ('tree-inconsistent', 'after %s (%s): %s' % (op, ans, '; '.join(probs[:4])))
+    return None
+
+
+def run_doc_ops(ops):
+    u = DocUniverse()
+    for idx, op in enumerate(ops):
+        ans = u.apply(op)
+        bad = doc_check(u, op, ans)
+        if bad: return idx, bad
+    return None
+
+
+def doc_histories(chk, n):
+    def report_doc(ops, sig):
+        cur = list(ops)
+        changed = True
+        while changed:
+            changed = False
+            for i in range(len(cur) - 2, -1, -1):
+                if cur[i][0] == 'make': continue
+                cand = cur[:i] + cur[i + 1:]
+                try:
+                    r = run_doc_ops(cand)
+                except Exception:
+                    continue
+                if r and r[1][0] == sig:
+                    cur = cand[:r[0] + 1]; changed = True; break
+        r = run_doc_ops(cur)
+        chk.fail(sig, {'docops': cur}, r[1][1] if r else 'not reproduced after shrinking')
+    for ops in doc_fixed_histories():
+        r = run_doc_ops(ops)
+        chk.case(('doc', json.dumps(ops)), nontrivial=True); chk.count('document_history_fixed')
+        if r: report_doc(ops[:r[0] + 1], r[1][0])
+    for _ in range(n):
+        last = None
+        for u, ops, op, ans in doc_random_history(chk.rng):
+            if op is not None: chk.count('docop_' + op[0])
+            bad = doc_check(u, op, ans)
+            if bad:
+                last = (list(ops), bad); break
+        chk.case(('doc', json.dumps(ops)), nontrivial=True); chk.count('document_history')
+        if last and not any(f['sig'] == last[1][0] for f in chk.failures):
+            report_doc(last[0], last[1][0])
+        elif last:
+            chk.fail(last[1][0], {'docops': last[0]}, last[1][1])
+
+
 def run(chk, replay=None):
     chk.rule = ('random edit sequences (append / insertBefore / removeChild / addElement / addText / addCDATA, <= 40 ops, '
                 '5 elements + 3 text + 1 CDATA node (text nodes of equal content, empty-string ones among them), attached to a document or free-standing; ~1/3 of the references / '
                 'removals name non-children; insertion of a node into its own descendant excluded) plus every op in every '
                 'distinct pointer state reachable over a small universe; non-trivial = sequence that moves an already '
                 'attached node or contains a raising call')
+    if replay is not None and 'docops' in replay['input']:
+        r = run_doc_ops(replay['input']['docops'])
+        print('replay: document history %s -> %s' % (json.dumps(replay['input']['docops']), r))
+        return 1 if r else 0
     if replay is not None:
         inp = replay['input']
         orc = oracle_only(inp['attached'], inp['ops'])
@@ -445,6 +645,8 @@ def run(chk, replay=None):
         chk.notes.append('exhaustive %s universe %d elements + %d text: %d distinct states, %d (state, op) pairs, depth<=%d%s'
                          % ('attached' if attached else 'free', ne, nt, ns, na, depth + 1,
                             ', state space closed (covers sequences of any length)' if closed else ''))
+    # ---- histories on a document: sections, cache methods, rendering calls
+    doc_histories(chk, 1500 if thorough else 200)
     # ---- random sequences
     nseq = 6000 if thorough else 600
     for s in range(nseq):
